@@ -130,6 +130,60 @@ def oracle_c09(tier, seed):
                 V(f"patch-uses-undefined-slots: {sorted(used - declared)[:5]} are used by the patch but not defined in naunet_macros.h")
         except Exception as e:
             V(f"patch-history-raises: {type(e).__name__}: {e}")
+    # ---- the simulation-code patch: every species of the network has exactly one field constant `<alias>Density` in the rendered
+    #      typedefs.h (a constant the code base already defines, or a generated one), and the list of already defined species in the
+    #      patch generator names exactly the constants the static part of the template declares
+    try:
+        from naunet.patches import patch_factory, EnzoPatch
+        from naunet.species import Species as _Sp2
+        fresh_species_state()
+        from naunet.network import Network as _Net
+        rs = [(["CH3+", "e-"], ["CH2", "H"]), (["CH3", "H+"], ["CH3+", "H"]), (["CH", "H2"], ["CH2", "H"]), (["C2", "O"], ["CO", "C"]), (["HCO+", "e-"], ["CO", "H"]),
+              (["OH", "H"], ["H2O"]), (["O2", "C"], ["CO", "O"]), (["Si+", "e-"], ["Si"]), (["CH4", "H+"], ["CH3+", "H2"]), (["He+", "e-"], ["He"]), (["D+", "H"], ["D", "H+"])]
+        net = _Net([mk_reaction(a, b) for a, b in rs])
+        d = tempfile.mkdtemp(prefix="vf_enzo2_")
+        try:
+            with contextlib.redirect_stdout(io.StringIO()):
+                patch_factory("enzo", "cpu").render(net, path=Path(d))
+            tdef = open(os.path.join(d, "typedefs.h"), errors="replace").read()
+        finally:
+            shutil.rmtree(d, ignore_errors=True)
+        cases += 1
+        from .native_ode import strip_comments
+        consts = re.findall(r"^\s*(\w+Density)\s*=", strip_comments(tdef), flags=re.M)
+        galias = dict(zip(EnzoPatch.grackle_species_name, EnzoPatch.grackle_defined_alias))
+        for s in net.species:
+            if s.is_electron:
+                continue
+            al = galias.get(s.name, s.alias)
+            n_ = consts.count(al + "Density")
+            if n_ != 1:
+                viol.append({"property": "C09", "network": "enzo-hydrocarbons", "what": f"patch-field-constant: species {s.name} has {n_} constants `{al}Density` in the rendered typedefs.h",
+                             "signature": "C09:enzo-hydrocarbons:patch-field-constant"})
+    except Exception as e:
+        viol.append({"property": "C09", "network": "enzo-hydrocarbons", "what": f"enzo-patch-raises: {type(e).__name__}: {e}", "signature": "C09:enzo-hydrocarbons:raises"})
+    # ---- every slot identifier used by a generated rate statement is one the macros define (format-specific rate builders name
+    #      the gas-phase partner of an ice species, shielding tables, ...)
+    try:
+        from . import native_net as NN
+        from naunet.species import Species as _Sp
+        fresh_species_state()
+        rs = [(["H2"], ["H", "H"], 4), (["CO"], ["C", "O"], 4), (["N2"], ["N", "N"], 4), (["GH2"], ["GH", "GH"], 12), (["GCO"], ["GC", "GO"], 12),
+              (["GN2"], ["GN", "GN"], 12), (["H", "H"], ["H2"], 1), (["CO"], ["GCO"], 7), (["GCO"], ["CO"], 8)]
+        lines = [NN.enc_leeds(NN.AR(r + (["PHOTON"] if c in (4, 12) else []), p, 1.0e-10 * (k + 1), 0.0, 1.5, 10, 1000, k + 1, c)) for k, (r, p, c) in enumerate(rs)]
+        for gm in ("hh93", ""):
+            net = NN.load(lines, "leeds", grain_model=gm) if gm else NN.load(lines[:3] + lines[6:7], "leeds")
+            files = render(net, "cvode", "dense", "cpu", jac_pattern=False)
+            cases += 1
+            declared = set(re.findall(r"^#define (IDX_\S+)", files["include/naunet_macros.h"], flags=re.M))
+            from .native_ode import strip_comments
+            used = set(re.findall(r"\bIDX_\w+", strip_comments(files["src/naunet_rates.cpp"])))
+            if used - declared:
+                viol.append({"property": "C09", "network": "leeds-shielding", "backend": "cvode/dense",
+                             "what": f"undefined-slot-identifier: naunet_rates.cpp uses {sorted(used - declared)[:5]}, naunet_macros.h defines no such macro (species aliases: {[s.alias for s in net.species][:8]})",
+                             "signature": "C09:leeds-shielding:undefined-slot-identifier"})
+    except Exception as e:
+        viol.append({"property": "C09", "network": "leeds-shielding", "what": f"leeds-shielding-raises: {type(e).__name__}: {e}", "signature": "C09:leeds-shielding:raises"})
     # ---- the slot order is the same in every process (hash seeds): artefacts written by separate invocations agree
     for label in ("ions", "ice-and-grains"):
         orders = {}
